@@ -9,7 +9,7 @@ TECH_SWEEP = "exhaustive bounded enumeration of inputs on the real code vs refer
 
 PLAN = {
     "C01": {
-        "quick": [S("hook-default")],
+        "quick": [S("hook-default"), S("hook-nosimd", tag="two-lookup-bmap", only="bmap"), S("hook-nosimd", tag="two-lookup-step", only="step")],
         "thorough": [S("hook-default"), S("m3-none", tag="nosimd")],
     },
     "C02": {
